@@ -287,3 +287,34 @@ Theorem c14_translated_built_term_renders :
    d <- svg_doc (svg_tf_term t) input ;;
    Some (svg_print (svg_width_px (svg_tf_oracle uw ceil84 t) (svg_split_lines styled)) uw d)).
 Proof. exact translated_built_term_renders. Qed.
+
+(* ---- the third-party crate html-escape 0.2.13, translated from the cargo registry (tools/gen_fn_htmlescape.py, generator
+   HtmlEscapeFn: the expansion of its macro_rules tables `escape_impl!` / `encode_impl!`; Proofs/HtmlEscapeGen.v).  The
+   crate works on the UTF-8 bytes of a &str, the hand model on code points; [str_bytes] is UTF-8 (Model/Text.v). ---- *)
+From AV Require Import Model.Text Generated.HtmlEscapeFn Proofs.HtmlEscapeGen.
+
+(* `html_escape::encode_text` is [svg_encode_text], byte for byte, on EVERY byte string; it never panics *)
+Theorem c14_translated_htmlescape_encode_text_is_model : forall text, g_he_encode_text text = Some (svg_encode_text text).
+Proof. exact g_he_encode_text_eq. Qed.
+
+(* `encode_text_to_vec` (what encode_text hands the rest of the text to after the first escaped byte): appends the
+   escaped text to the vector and returns the part appended *)
+Theorem c14_translated_htmlescape_encode_text_to_vec_is_model : forall text out,
+  g_he_encode_text_to_vec text out = Some (out ++ svg_encode_text text, svg_encode_text text).
+Proof. exact g_he_encode_text_to_vec_eq. Qed.
+
+(* escaping commutes with UTF-8: no byte of a multi-byte character is '&', '<' or '>', the entities are ASCII *)
+Theorem c14_translated_htmlescape_commutes_with_utf8 : forall w, svg_encode_text (str_bytes w) = str_bytes (svg_encode_text w).
+Proof. exact enc_str_bytes. Qed.
+
+(* what the translation of anstyle-svg assumes of `html_escape::encode_text(fragment)` (tools/gen_fn_svg.py: a &str is the
+   list of its chars, the call is [svg_encode_text]): on the &str holding the chars [w] the translated crate function
+   returns the &str holding the chars [svg_encode_text w], for every text *)
+Theorem c14_translated_htmlescape_encode_text_utf8 : forall w,
+  g_he_encode_text (str_bytes w) = Some (str_bytes (svg_encode_text w)).
+Proof. exact translated_encode_text_utf8. Qed.
+
+(* a text without '&', '<', '>' comes back unchanged (the Cow::Borrowed exit of the scan loop) *)
+Theorem c14_translated_htmlescape_plain_unchanged : forall text,
+  forallb (fun c => negb (he_special c)) text = true -> g_he_encode_text text = Some text.
+Proof. exact translated_encode_text_plain. Qed.
